@@ -32,7 +32,8 @@ EXPLANATION = (
     "is a list of computations, a value equal to a key is that key's value) plus an independent walk collecting the keys a term references. "
     "Asserted per path: convert_legacy_graph keeps every key and yields GraphNodes carrying that key; each node's .dependencies (and DependenciesMapping) "
     "equal the referenced keys; node(values) equals the oracle value; dask.core.get on the legacy graph (one key, all keys, with some keys "
-    "supplied through cache=) equals the oracle; resolve_aliases followed by execute_graph returns the same requested values. A second family "
+    "supplied through cache=) equals the oracle; dict arguments whose values are legacy terms (key-like literal, nested call, list of keys, plain literal) must be "
+    "evaluated elementwise and their keys reported as dependencies (legacy_dict obligations); resolve_aliases followed by execute_graph returns the same requested values. A second family "
     "builds task-object graphs directly (Task with args/kwargs, TaskRef, Alias, DataNode, nested List/Tuple/Set/Dict in all three Dict "
     "constructor forms) from an AST with its own evaluator; key-like literals there must NOT be dereferenced. Every path model is re-run "
     "natively and, in e2e, every node and the whole converted graph are pickled and unpickled (dependencies and computed value preserved) and "
@@ -42,17 +43,15 @@ ASSUMPTIONS = [
     "a tuple that is not headed by a callable is, unless the whole tuple equals a key, evaluated elementwise and rebuilt as a tuple: the property text and "
     "spec.rst are silent about such tuples; this follows the converter's tested intent (namedtuple/tuple arguments are traversed) and NOT dask.core.keys_in_tasks, "
     "which still treats them as opaque",
-    "a dict is interpreted only as a direct argument of a call and only its values that are task objects (TaskRef, Alias) are evaluated; dict values that are "
-    "legacy terms (key-like literals, legacy tuples, lists) are outside the claim -- dask leaves them uninterpreted as the historic evaluator did, although "
-    "the property text says 'dicts are evaluated elementwise' and keys_in_tasks lists dict values as dependencies (reported, see OUTSIDE)",
+    "a dict is interpreted only as a direct argument of a call; there its values are evaluated elementwise as legacy terms (property text) -- the legacy_dict "
+    "obligations assert exactly this and carry the derived model variable dict_value_term (1 iff some dict value references a key or contains a call)",
     "functions in tasks are pure tuple builders; literal() wrappers produced by quote are called like any other callable",
 ]
 STUBS = ["the name `int` in dask._task_spec is bound to symx ShimInt during symbolic runs so that isinstance(x, (int, float, str, tuple)) accepts a symbolic int"]
 ENUM = ["term shape (construct kind, width, which child is deep), leaf kind, requested keys, cache variant",
         "every int leaf and every ('t', w) leaf of a legacy term is hashed by the converter (`task in all_keys`) and therefore concretised: ranges are "
         "[-1, 1] (quick) or [-1, 2] / [0, 1]; ints in quoted values, dict arguments and task-object arguments are not hashed and stay symbolic (except inside Set)"]
-OUTSIDE = ["dict values that are legacy terms, e.g. get({'x': 1, 'y': (f, {'a': 'x'})}, 'y') passes {'a': 'x'} to f (no dereference, no dependency)",
-           "dicts and sets in other positions of a legacy graph (top-level dict values become literal DataNodes; legacy set/frozenset arguments)",
+OUTSIDE = ["dicts and sets in other positions of a legacy graph (top-level dict values become literal DataNodes; legacy set/frozenset arguments)",
            "namedtuples, SubgraphCallable, futures with __dask_future__, Task.fuse / substitute (C09), tokenisation/equality of nodes, async functions",
            "raw Python containers holding task objects passed as Task arguments (documented as not traversed)", "graphs with cycles or self references",
            "terms deeper than 2 / wider than 2 (thorough: depth 2 with both children deep; quick: one deep child per level)"]
@@ -153,8 +152,8 @@ def ref_eval(t, env, keys):
 
 
 def ref_arg(a, env, keys):
-    if type(a) is dict:      # dict argument: task-object values are evaluated, everything else is kept
-        return {k: (ref_eval(v, env, keys) if isinstance(v, (TaskRef, Alias)) else v) for k, v in a.items()}
+    if type(a) is dict:      # dict argument: evaluated elementwise (property text), keys of the dict are kept
+        return {k: ref_eval(v, env, keys) for k, v in a.items()}
     return ref_eval(a, env, keys)
 
 
@@ -167,8 +166,7 @@ def ref_deps(t, keys, out):
         for a in t[1:]:
             if type(a) is dict:
                 for v in a.values():
-                    if isinstance(v, (TaskRef, Alias)):
-                        ref_deps(v, keys, out)
+                    ref_deps(v, keys, out)
             else:
                 ref_deps(a, keys, out)
     else:
@@ -450,6 +448,59 @@ def mk_term(tag, depth, cfg, only, every=3):
     return Obligation(f"term[{tag}]", build, run, patches=_patches, e2e=_legacy_e2e(build), e2e_every=every)
 
 
+# -- family A': dict arguments whose values are legacy terms (literal reading of "dicts are evaluated elementwise") ----------
+
+DV_KINDS = ("lit", "zlit", "int", "skey", "tkey", "call", "list", "litlist")
+
+
+def mk_legacy_dict(tag, width, irange, every=3):
+    def dict_value(e, nm):
+        kind = e.pick(nm + ":k", DV_KINDS)
+        if kind == "lit":
+            return e.int(nm + ":v", 5, 6)
+        if kind == "zlit":
+            return "z"
+        if kind == "int":
+            return e.int(nm + ":v", *irange)                     # key-like iff it equals 0 or 1 (decided by the solver: dask never hashes it)
+        if kind == "skey":
+            return "s"
+        if kind == "tkey":
+            return ("t", e.int(nm + ":w", 0, 1))
+        if kind == "call":
+            return (h, e.pick(nm + ":r", [0, T1]))
+        if kind == "list":
+            return [e.pick(nm + ":r", [1, "s"]), e.int(nm + ":v", 5, 6)]
+        return [e.int(nm + ":v", 5, 6)]
+
+    def needs_eval(t, keys):
+        if is_call(t):
+            return True
+        if key_denoted(t, keys) is not None:
+            return True
+        if type(t) in (list, tuple):
+            return any(needs_eval(x, keys) for x in t)
+        return False
+
+    def build(e):
+        inner = e.flag("inner")
+        n = e.choice("d:n", width + 1)
+        d = {"pq"[i]: dict_value(e, f"d.{i}") for i in range(n)}
+        needs = any(needs_eval(v, BASEKEYS) for v in d.values())
+        flag = e.int("dict_value_term", 0, 1)
+        want = 1 if needs else 0
+        e.assume(lambda: flag == want)
+        dsk = dict(BASE)
+        dsk["y"] = (f, (g, d), 9) if inner else (f, d)
+        return dsk, None
+
+    def run(e, dsk, cache_in):
+        conv, env, obs = check_legacy(e, dsk, None, ["y", list(dsk)])
+        check_resolve(e, conv, env, ["y"])
+        return obs
+
+    return Obligation(f"legacy_dict[{tag}]", build, run, patches=_patches, e2e=_legacy_e2e(build), e2e_every=every)
+
+
 # -- family B: chains of generated keys 0 -> ('t', 1) -> 's' ------------------------------------------------------------
 
 
@@ -652,6 +703,7 @@ def obligations(tier):
         c2 = dict(leaves=[L_SMALL], sib=("int",), comps=COMPS, width=2, irange=(-1, 0), one_deep=True, dwidth=1)
         for top in COMPS:
             obs.append(mk_term(f"d2,w2,one deep,top={top}", 2, c2, (top,), every=5))
+        obs.append(mk_legacy_dict("w2,values int[-1,1]", 2, (-1, 1)))
         cb0 = dict(leaves=[("slit",)], comps=("call",), width=0, irange=(-1, 1))
         cb1 = dict(leaves=[("int",)], comps=("call", "list"), width=1, irange=(-1, 0))
         cb2 = dict(leaves=[("int", "tkey")], comps=COMPS, width=2, irange=(-1, 0))
@@ -668,6 +720,7 @@ def obligations(tier):
         c2 = dict(leaves=[L_FULL, L_FULL, L_SMALL], comps=COMPS, width=2, irange=(-1, 0), one_deep=False, dwidth=1)
         for top in COMPS:
             obs.append(mk_term(f"d2,w2,all deep,top={top}", 2, c2, (top,), every=11))
+        obs.append(mk_legacy_dict("w2,values int[-1,2]", 2, (-1, 2)))
         cb0 = dict(leaves=[("int", "slit")], comps=("call",), width=0, irange=(-1, 1))
         cb1 = dict(leaves=[("int", "tkey", "slit")], comps=COMPS, width=1, irange=(-1, 0), dwidth=1)
         cb2 = dict(leaves=[("int", "tkey", "slit")], comps=COMPS, width=2, irange=(-1, 0), dwidth=1)
